@@ -10,6 +10,10 @@ was set by a reload (config file rewritten + HUP before the requests start), and
 Two more moments of a worker's life at which the stop signal arrives: the worker has already decided, of its own accord, to stop
 after the request it is serving (it reached `max_requests`) - and the worker has not finished booting (it is still importing the
 application: at start-up, or as the new pool of a reload).
+One more dimension of the history before the stop: a reload (configuration file rewritten + HUP) MOVED the files the master keeps -
+the pid file got another path, a pid file was configured where there was none, the pid file setting was dropped, the listener
+went from / to a unix socket path or to another unix socket path.  After the stop none of the files the master created during
+its life may be left: neither the ones of the configuration in force nor the ones of an earlier configuration.
 """
 import re
 import json
@@ -27,8 +31,11 @@ RULE = ("scenario = (worker class in {sync,gthread,gevent,eventlet}, signal in {
         "partial-response, keepalive-idle}, application duration class {finishes, overruns, never}, graceful_timeout "
         "raised / lowered by a reload before the requests start, worker_connections exhausted plus one more connected "
         "client at the signal, the request in flight is the one that took its worker to max_requests, the signal arrives while "
-        "the workers (of the start-up / of a reload) are importing the application); distinct = scenario tuple; non-trivial = at "
-        "least one in-flight phase or a worker that is still booting")
+        "the workers (of the start-up / of a reload) are importing the application, reload(s) before the requests start that moved "
+        "the pid file / the unix socket file {pidfile-path, pidfile-added, pidfile-removed, bind-unix-to-tcp, bind-tcp-to-unix, "
+        "bind-unix-to-unix}); distinct = scenario tuple; non-trivial = at least one in-flight phase or a worker that is still booting")
+
+MOVES = ["pidfile-path", "pidfile-added", "pidfile-removed", "bind-unix-to-tcp", "bind-tcp-to-unix", "bind-unix-to-unix"]
 
 PHASES = ["idle", "partial", "app", "stream", "keepalive"]
 SIGS = {"TERM": signal.SIGTERM, "INT": signal.SIGINT, "QUIT": signal.SIGQUIT}
@@ -173,6 +180,45 @@ def wait_replaced(e4, srv, old, n, timeout):
     return None
 
 
+def apply_move(e4, srv, kind, step, files):
+    """Rewrite the configuration file of `srv` so that the next reload moves one of the files the master keeps.  `files` is the
+    harness's ledger {"pidfile": current path | None, "sock": current path | None, "former": [(what, path), ...]} of every file
+    the configuration has made the master create so far.  Returns None, or the reason why the step does not apply."""
+    if kind in ("pidfile-path", "pidfile-added"):
+        if (files["pidfile"] is None) != (kind == "pidfile-added"):
+            return "step %s does not apply (pid file now: %s)" % (kind, files["pidfile"])
+        new = os.path.join(srv.dir, "moved%d.pid" % step)
+        if files["pidfile"]:
+            files["former"].append(("pidfile", files["pidfile"]))
+        files["pidfile"] = new
+        srv.write_conf(pidfile=new)
+    elif kind == "pidfile-removed":
+        if files["pidfile"] is None:
+            return "step %s does not apply (no pid file configured)" % kind
+        files["former"].append(("pidfile", files["pidfile"]))
+        files["pidfile"] = None
+        srv.settings.pop("pidfile", None)
+        srv.write_conf()
+    elif kind in ("bind-unix-to-tcp", "bind-tcp-to-unix", "bind-unix-to-unix"):
+        if (files["sock"] is None) != (kind == "bind-tcp-to-unix"):
+            return "step %s does not apply (unix socket now: %s)" % (kind, files["sock"])
+        if files["sock"]:
+            files["former"].append(("sock", files["sock"]))
+        if kind == "bind-unix-to-tcp":
+            files["sock"] = None
+            srv.port = e4.free_port()
+            srv.addr = ("127.0.0.1", srv.port)
+            srv.bind = "127.0.0.1:%d" % srv.port
+        else:
+            files["sock"] = srv.sockpath = os.path.join(srv.dir, "moved%d.sock" % step)
+            srv.addr = srv.sockpath
+            srv.bind = "unix:" + srv.sockpath
+        srv.write_conf()
+    else:
+        return "unknown step %r" % (kind,)
+    return None
+
+
 def run_scenario(run, e4, sc):
     """Returns (violations, inconclusive_reason|None, info)."""
     v = []
@@ -192,8 +238,12 @@ def run_scenario(run, e4, sc):
     srv = e4.Server("c04", worker_class=wc, workers=workers, settings=settings, bind=sc["bind"],
                     app_source=(e4.APP_SOURCE + SLOW_IMPORT_TAIL) if boot else None)
     slow_flag = os.path.join(srv.dir, "slow-import")
-    settings["pidfile"] = os.path.join(srv.dir, "g.pid")
-    srv.write_conf(pidfile=settings["pidfile"])
+    moves = list(sc.get("reload_moves") or [])
+    # every file the configuration makes the master create, over its whole life (the reloads below move them)
+    files = {"pidfile": None, "sock": srv.sockpath if sc["bind"] in ("unix", "both") else None, "former": []}
+    if not (moves and moves[0] == "pidfile-added"):
+        settings["pidfile"] = files["pidfile"] = os.path.join(srv.dir, "g.pid")
+        srv.write_conf(pidfile=settings["pidfile"])
     lag = e4.LagProbe()
     lag.start()
     info = {}
@@ -209,8 +259,10 @@ def run_scenario(run, e4, sc):
             w = srv.wait_workers(workers, 25)
         if not w or not srv.wait_listening(5):
             return v, "server did not boot: %s" % srv.stderr()[-300:], info
-        if not os.path.exists(settings["pidfile"]):
+        if files["pidfile"] and not os.path.exists(files["pidfile"]):
             v.append(("pidfile-not-created", "pid file missing while the master runs"))
+        if files["sock"] and not os.path.exists(files["sock"]):
+            return v, "the unix socket file does not exist although its address accepts", info
         if sc.get("reload_graceful"):
             # the graceful timeout in force when the server is stopped is the one a reload brought: the file is rewritten,
             # HUP, and only once the whole pool runs the new configuration do the requests start
@@ -221,6 +273,22 @@ def run_scenario(run, e4, sc):
                 return v, "the reload that changes graceful_timeout did not complete: %s" % srv.stderr()[-300:], info
             info["graceful_before_reload"] = graceful
             graceful = sc["reload_graceful"]
+        for step, kind in enumerate(moves):
+            # a reload that moves a file the master keeps: the configuration file is rewritten, HUP, and the scenario goes on only
+            # once the whole pool was started by that reload, the (new) address accepts and the files of the new configuration exist
+            why = apply_move(e4, srv, kind, step, files)
+            if why:
+                return v, why, info
+            srv.signal(signal.SIGHUP)
+            w = wait_replaced(e4, srv, w, workers, 25)
+            if not w or not srv.wait_listening(10):
+                return v, "the reload that moves files (%s) did not complete: %s" % (kind, srv.stderr()[-300:]), info
+            missing = [f for f in (files["pidfile"], files["sock"]) if f and not os.path.exists(f)]
+            if missing:
+                return v, "after the reload (%s) the files of the new configuration do not exist: %s" % (
+                    kind, [os.path.basename(f) for f in missing]), info
+            info.setdefault("former_files_present_after_reload", []).append(
+                sorted(os.path.basename(f) for _, f in files["former"] if os.path.lexists(f)))
         res, ev, threads = {}, {p: threading.Event() for p in PHASES}, []
         res["_partial_delay"] = sc.get("partial_delay", 0.2)
         go = threading.Event()
@@ -350,10 +418,34 @@ def run_scenario(run, e4, sc):
             v.append(("listener-still-accepting", "address %r accepts connections after master exit" % (srv.addr,)))
         except OSError:
             run.count("listener_closed_checks")
-        if os.path.exists(settings["pidfile"]) and not sc.get("pidfile_garbage"):
+        if files["pidfile"] and os.path.exists(files["pidfile"]) and not sc.get("pidfile_garbage"):
             v.append(("pidfile-left-behind", "pid file still present after exit"))
-        if sc["bind"] in ("unix", "both") and os.path.exists(srv.sockpath):
+        if files["sock"] and os.path.exists(files["sock"]):
             v.append(("unix-socket-file-left-behind", "socket file still present after exit"))
+        # the files of the configurations before the reload(s): the master created them too
+        for what, path in files["former"]:
+            if path in (files["pidfile"], files["sock"]) or not os.path.lexists(path):
+                continue
+            if what == "pidfile":
+                try:
+                    with open(path) as f:
+                        names_master = f.read().strip() == str(srv.master_pid)
+                except OSError:
+                    names_master = None
+                v.append(("pidfile-of-before-reload-left-behind",
+                          "after %s and the master's exit the pid file of the configuration before the reload(s) %s (%s) is still "
+                          "present (its content names the exited master: %s); the pid file of the configuration in force: %s" % (
+                              signame, moves, os.path.basename(path), names_master,
+                              "gone" if files["pidfile"] and not os.path.exists(files["pidfile"]) else
+                              ("none configured" if not files["pidfile"] else "also left"))))
+            else:
+                v.append(("unix-socket-file-of-before-reload-left-behind",
+                          "after %s and the master's exit the unix socket file of the configuration before the reload(s) %s (%s) is "
+                          "still present; bind in force at the stop: %r" % (signame, moves, os.path.basename(path), srv.bind)))
+        for kind in moves:
+            run.count("files_moved_by_reload_checks/" + kind)
+        if moves:
+            run.count("files_moved_by_reload_checks/%s" % ("graceful" if signame == "TERM" else "quick"))
         timing_inconclusive = None
         if late:
             if maxlag > 0.5:
@@ -512,6 +604,32 @@ def scenarios(tier, seed):
         for when in (["start", "reload"] if tier == "thorough" else [r6.choice(["start", "reload"])]):
             out.append({"class": wc, "signal": "TERM", "bind": r6.choice(["tcp", "unix"]), "graceful": 3, "phases": [],
                         "duration": "never", "during_boot": when, "import_ends": r6.choice([None, 1.0])})
+    # the configuration was reloaded before the stop and the reload moved the files the master keeps (pid file: other path / added /
+    # dropped; listener: unix socket -> TCP, TCP -> unix socket, unix socket -> other unix socket).  The requests start on the
+    # address in force after the reload; after the stop no file of any of the configurations may be left.  Quick: every kind of
+    # move once, worker class and signal drawn; thorough: every kind under a graceful and a quick stop, and histories of two reloads
+    r7 = rng_for(seed, "c04-reload-moves")
+    quick_sig = {k: r7.choice(["INT", "QUIT"]) for k in MOVES}
+    stops = {k: r7.choice(["TERM", "TERM", quick_sig[k]]) for k in MOVES}
+    histories = [([k], stops[k]) for k in MOVES]
+    if tier == "thorough":
+        histories += [([k], quick_sig[k] if stops[k] == "TERM" else "TERM") for k in MOVES]
+        histories += [(["pidfile-path", "pidfile-path"], "TERM"), (["pidfile-added", "pidfile-path"], quick_sig["pidfile-added"]),
+                      (["pidfile-removed", "pidfile-added"], "TERM"), (["pidfile-path", "bind-tcp-to-unix"], "TERM"),
+                      (["bind-tcp-to-unix", "bind-unix-to-unix"], quick_sig["bind-tcp-to-unix"]),
+                      (["bind-unix-to-tcp", "bind-tcp-to-unix"], "TERM"), (["bind-tcp-to-unix", "pidfile-removed"], "TERM")]
+    for moves, signame in histories:
+        bind_moves = [k for k in moves if k.startswith("bind-")]
+        drawn = r7.choice(["tcp", "unix"])
+        first_bind = drawn if not bind_moves else ("unix" if bind_moves[0].startswith("bind-unix") else "tcp")
+        if signame == "TERM":
+            out.append({"class": r7.choice(classes), "signal": "TERM", "bind": first_bind, "graceful": 4, "reload_moves": moves,
+                        "phases": ["app", "keepalive"], "duration": "finishes", "app_delay": r7.choice([0.3, 0.8])})
+        else:
+            # (graceful timeout 3 s: a threaded worker's quick exit waits that long for a busy handler thread - the known finding of
+            # the cells above - and is still within the limit of a quick shutdown here)
+            out.append({"class": r7.choice(classes), "signal": signame, "bind": first_bind, "graceful": 3, "reload_moves": moves,
+                        "phases": ["idle", "app"], "duration": "never"})
     if tier == "thorough":
         for s2 in range(5):
             r2 = rng_for(seed, "c04-thorough", s2)
@@ -541,7 +659,7 @@ def shard(sh):
         run.count("retries_after_inconclusive")
     run.case(json.dumps({k: sc.get(k) for k in ("class", "signal", "bind", "phases", "duration", "graceful", "partial_delay", "busy_on", "retire", "pidfile_garbage",
                                                  "reload_graceful", "worker_connections", "workers", "timeout", "max_requests", "warmup",
-                                                 "during_boot", "import_ends")}, sort_keys=True))
+                                                 "during_boot", "import_ends", "reload_moves")}, sort_keys=True))
     run.count("scenarios")
     run.count("class/" + sc["class"])
     run.count("signal/" + sc["signal"])
@@ -549,7 +667,7 @@ def shard(sh):
     for mech, summary in v:
         run.violation(mech, summary + " | scenario=%s info=%s" % ({k: sc[k] for k in ("class", "signal", "bind", "phases", "duration", "graceful", "reload_graceful", "worker_connections",
                                                                          "workers", "timeout", "max_requests", "warmup", "during_boot",
-                                                                         "import_ends") if k in sc}, info), sc)
+                                                                         "import_ends", "reload_moves") if k in sc}, info), sc)
     if reason is not None and not v:
         if "scheduling lag" in reason:
             run.count("cells_skipped_for_scheduling_lag")      # measured lag made the wall-clock judgement unsafe, three times
@@ -571,7 +689,8 @@ def main(tier, seed):
                 "self_retiring_worker_in_flight_checks/gevent", "self_retiring_worker_in_flight_checks/eventlet",
                 "stop_while_workers_import_checks/start/quick", "stop_while_workers_import_checks/reload/quick",
                 "stop_while_workers_import_checks/sync", "stop_while_workers_import_checks/gthread",
-                "stop_while_workers_import_checks/gevent", "stop_while_workers_import_checks/eventlet")
+                "stop_while_workers_import_checks/gevent", "stop_while_workers_import_checks/eventlet",
+                *["files_moved_by_reload_checks/" + k for k in MOVES])
     scs = scenarios(tier, seed)
     shards = [{"scenario": sc, "seed": seed, "tier": tier} for sc in scs]
     run.assumptions = [
@@ -584,6 +703,10 @@ def main(tier, seed):
         "worker timeout cells: `timeout` 0 (supervision disabled) for every class; `timeout` 2 s below graceful_timeout 8 s with a request "
         "that ends 3.2-3.6 s after TERM only for gthread / gevent / eventlet (a sync worker busy for longer than `timeout` is killed by "
         "the supervision itself, before any shutdown - C11's subject)",
+        "files moved by a reload: the harness keeps a ledger of every pid file / unix socket path a configuration in force during the "
+        "master's life named; a move is established once the whole pool was started by the reload, the address in force accepts and "
+        "the files of the new configuration exist; judged at master exit + 0.5 s like the files of the last configuration; whether a "
+        "former TCP address still accepts is not judged (the port may have been handed to another process since)",
         "after a reload that changes graceful_timeout the value in force is the reloaded one (judged only once every worker of the "
         "pool was started by that reload); the lowered-by-reload cell is a wall-clock judgement and is skipped under scheduling lag",
     ]
